@@ -52,6 +52,10 @@ def gen_hypergraph(rng):
             h.add_node(n)
     if not h.get_nodes():
         h.add_node(labels[0])
+    if rng.random() < 0.35:  # calls the library refuses, made before measuring (a refused call must leave no trace)
+        from ..mutate import refused_calls
+
+        refused_calls(rng, h)
     return h, uni
 
 
@@ -89,10 +93,16 @@ def run_case(ctx, rng, idx):
         ctx.event("big-hypergraph")
         evaluate(ctx, rng, idx, h, "H", ":big", sample=12)
         return
+    if idx in (2, 5) or (ctx.tier == "thorough" and idx % 500 == 13):
+        from ..gen import core_periphery
+
+        ctx.event("core-periphery-hypergraph")
+        evaluate(ctx, rng, idx, core_periphery(rng, weighted=rng.random() < 0.3), "H", ":core-periphery", sample=12)
+        return
     if idx % 4 == 3:
         kind = "HDTM"[(idx // 4) % 4]
         cfg = history.Cfg(rng, kind)
-        cfg.invalid_rate = 0
+        cfg.invalid_rate = 0.1  # refused calls are part of the build: they must leave no trace in what is measured
         cfg.avoid = {"copy", "clear"}
         try:
             live, _ = history.run_history(NullCtx(), rng, cfg, battery_every=0)
